@@ -133,7 +133,9 @@ func ZzC14Step() {
 			zzAssert(len(pkts) == 1+run, "in-order packet delivered with the consecutive buffered run")
 			zzAssert(lost == 0, "in-order packet: no loss")
 			zzCover("in order", true)
-			zzCover("in order with buffered run", run > 0)
+			if B > 1 {
+				zzCover("in order with buffered run", run > 0)
+			}
 		}
 	}
 	// delivered packets: strictly increasing (mod 2^16) from the last delivered,
